@@ -123,7 +123,8 @@ def rebuild (db : Hash → Option SNode) (fuel : Nat) (root : Hash) (s : MS) : M
 /-! ### Blocks stage: the body check of (*Module).AddBlock (module.go:508-517)
 
 The block's header is the genuine one (its hash is compared with the stored header hash), the transaction
-list is validated only through `block.ComputeMerkleRoot() == header.MerkleRoot`. Hashes are symbolic here
+list is validated through `block.ComputeMerkleRoot() == header.MerkleRoot` and, since fix 6817c0b, by
+refusing a repeated transaction hash (the root alone does not exclude one). Hashes are symbolic here
 (a collision-free hash = structural equality of the hashed terms): `calcMerkle` is hash.CalcMerkleRoot
 (crypto/hash/merkle_tree.go:74-97) including its duplication of the last element of an odd level. -/
 
@@ -146,8 +147,15 @@ def calcMerkle : Nat → List MTree → MTree
 
 /-- Does AddBlock accept transaction list `body` (transaction identities) for a block whose real list is
 `orig`? -/
-def acceptsBody (orig body : List Nat) : Bool :=
+def merkleMatches (orig body : List Nat) : Bool :=
   calcMerkle (body.length + 1) (body.map .leaf) == calcMerkle (orig.length + 1) (orig.map .leaf)
+
+def noRepeat : List Nat → Bool
+  | [] => true
+  | a :: r => !r.contains a && noRepeat r
+
+def acceptsBody (orig body : List Nat) : Bool :=
+  merkleMatches orig body && noRepeat body
 
 def poolHashes (p : Pool) : List Hash := (p.map (·.1)).eraseDups
 
